@@ -687,8 +687,13 @@ func (p *prover) summaryFacts(self lin, x *ssa.Call) {
 		return
 	}
 	ref, ok := w.posSummary(callee, map[*ssa.Function]bool{})
+	searchIdx := false
 	if !ok {
-		return
+		// a search helper: the index of a matching element, or -1
+		if ref, ok = w.idxOrMinusOne(callee); !ok {
+			return
+		}
+		searchIdx = true
 	}
 	recv := callArg(x, -1)
 	if recv == nil {
@@ -707,8 +712,14 @@ func (p *prover) summaryFacts(self lin, x *ssa.Call) {
 			key := p.lenKey(u)
 			o := newLin()
 			o.c[key] = 1
-			p.addFact(self, "summary: "+w.fname(callee)+" >= 0")
-			p.ge(o, self, "summary: "+w.fname(callee)+" <= len("+ref+")")
+			if searchIdx {
+				one := lin{c: map[string]int64{}, k: 1}
+				p.addFact(self.add(one, 1), "summary: "+w.fname(callee)+" >= -1")
+				p.ge(o.add(one, -1), self, "summary: "+w.fname(callee)+" < len("+ref+")")
+			} else {
+				p.addFact(self, "summary: "+w.fname(callee)+" >= 0")
+				p.ge(o, self, "summary: "+w.fname(callee)+" <= len("+ref+")")
+			}
 			if p.summaryLoads == nil {
 				p.summaryLoads = map[string][]ssa.Instruction{}
 			}
@@ -756,6 +767,40 @@ func (w *World) posStrictOnNilError(fn *ssa.Function, ref string) bool {
 		}
 	}
 	return true
+}
+
+// idxOrMinusOne: fn (one int result, a method) returns on every path either the constant -1 or the current index of a
+// range loop over a list field of its receiver, taken inside the loop body; it does not store to that field.
+func (w *World) idxOrMinusOne(fn *ssa.Function) (string, bool) {
+	if fn.Signature.Recv() == nil || fn.Signature.Results().Len() != 1 || !isIntegerType(fn.Signature.Results().At(0).Type()) {
+		return "", false
+	}
+	ref := ""
+	loops := rangeLoops(fn)
+	nIdx := 0
+	for _, r := range returnsUnder(fn, nil) {
+		for _, v := range phiLeaves(r.Results[0]) {
+			if k, ok := constInt(v); ok && k == -1 {
+				continue
+			}
+			matched := false
+			for _, rl := range loops {
+				if rl.Idx != nil && strip(rl.Idx) == strip(v) && rl.Body.Dominates(r.Block()) {
+					if rf, base := loadedField(rl.Over); rf != "" && isParam(fn, base, 0) && (ref == "" || ref == rf) {
+						ref, matched = rf, true
+						nIdx++
+					}
+				}
+			}
+			if !matched {
+				return "", false
+			}
+		}
+	}
+	if ref == "" || nIdx == 0 || len(w.fieldStores(fn, ref)) > 0 {
+		return "", false
+	}
+	return ref, true
 }
 
 // posSummary: fn returns a position in [0, len(recv.field)]: every return value is the constant 0, a range index over
